@@ -65,7 +65,7 @@ func lexSpec(src string) ([]tok, error) {
 			i++
 		case unicode.IsLetter(rune(c)) || c == '_' || c == '$':
 			j := i + 1
-			for j < len(src) && (unicode.IsLetter(rune(src[j])) || unicode.IsDigit(rune(src[j])) || src[j] == '_' || src[j] == '$') {
+			for j < len(src) && (unicode.IsLetter(rune(src[j])) || unicode.IsDigit(rune(src[j])) || src[j] == '_' || src[j] == '$' || (src[j] == '#' && j+1 < len(src) && unicode.IsDigit(rune(src[j+1])))) {
 				j++
 			}
 			toks = append(toks, tok{"ident", src[i:j]})
